@@ -396,4 +396,56 @@ theorem sfArgsBuild_targets (explicit : Option (List String)) (o : Opt) (oldArgs
           · exact .inl (hasgs a ha')
           · exact .inr ha'
 
+
+/-! ### fresh identities do not change content -/
+
+mutual
+theorem number_mapCells_zero : ∀ (v : AValue) (n : Nat), (v.number n).1.mapCells zeroCell = v.mapCells zeroCell
+  | .none, n => by simp [AValue.number]
+  | .arg c, n => by
+    simp only [AValue.number]
+    split <;> simp [AValue.mapCells, zeroCell]
+  | .const _, n => by simp [AValue.number]
+  | .env t vs, n => by simp [AValue.number, AValue.mapCells, numberEnv_mapCells_zero vs n]
+theorem numberEnv_mapCells_zero : ∀ (vs : List EnvField) (n : Nat),
+    mapCellsEnv zeroCell (numberEnv vs n).1 = mapCellsEnv zeroCell vs
+  | [], n => by simp [numberEnv]
+  | e :: es, n => by
+    simp [numberEnv, mapCellsEnv, number_mapCells_zero e.value n, numberEnv_mapCells_zero es]
+end
+
+theorem numberAssignments_content : ∀ (as : List Assignment) (n : Nat),
+    (numberAssignments as n).1.map (Assignment.mapCells zeroCell) = as.map (Assignment.mapCells zeroCell)
+  | [], n => by simp [numberAssignments]
+  | a :: as, n => by
+    simp [numberAssignments, Assignment.mapCells, number_mapCells_zero a.value n, numberAssignments_content as]
+
+theorem Opt.number_content (o : Opt) (n : Nat) : (o.number n).1.content = o.content := by
+  simp only [Opt.number, Opt.content, Opt.mapCells]
+  split <;> simp [numberAssignments_content]
+
+theorem numberOpts_content : ∀ (os : List Opt) (n : Nat), (numberOpts os n).1.map Opt.content = os.map Opt.content
+  | [], n => by simp [numberOpts]
+  | o :: os, n => by simp [numberOpts, Opt.number_content o n, numberOpts_content os]
+
+theorem Builder.number_content (b : Builder) (n : Nat) : (b.number n).1.content = b.content := by
+  simp [Builder.number, Builder.content, numberAssignments_content, numberOpts_content]
+
+theorem numberBuilders_content : ∀ (bs : Builders) (n : Nat),
+    (numberBuilders bs n).1.map Builder.content = bs.map Builder.content
+  | [], n => by simp [numberBuilders]
+  | b :: bs, n => by simp [numberBuilders, Builder.number_content b n, numberBuilders_content bs]
+
+theorem Builder.content_options_isEmpty (b : Builder) : b.content.options.isEmpty = b.options.isEmpty := by
+  simp [Builder.content]
+
+theorem numberBuilders_options_isEmpty : ∀ (bs : Builders) (n : Nat),
+    (numberBuilders bs n).1.map (fun b => b.options.isEmpty) = bs.map (fun b => b.options.isEmpty)
+  | [], n => by simp [numberBuilders]
+  | b :: bs, n => by
+    have h1 : (b.number n).1.options.isEmpty = b.options.isEmpty := by
+      have := congrArg (fun x : Builder => x.options.isEmpty) (Builder.number_content b n)
+      simpa [Builder.content] using this
+    simp [numberBuilders, h1, numberBuilders_options_isEmpty bs]
+
 end Cog.Builder
